@@ -40,9 +40,10 @@ VALUE_TABLE = {
     "date": {"good": [{"date": "2020-01-02"}, {"date": "1999-12-31"}],
              "text": ["2020-01-02", "2020-1-2"],
              "near": ["2020-13-01", "01.02.2020", {"datetime": "2020-01-02T03:04:05"}, 20200102]},
-    "time": {"good": [{"time": "12:34:56"}, {"time": "00:00:00"}], "text": ["12:34:56", "1:2:3"],
+    "time": {"good": [{"time": "12:34:56"}, {"time": "00:00:00"}, {"time": "12:34:56+02:00"}], "text": ["12:34:56", "1:2:3"],
              "near": ["25:00:00", "12:34", {"time": "12:34:56.789000"}, 1234]},
-    "datetime": {"good": [{"datetime": "2020-01-02T03:04:05"}], "text": ["2020-01-02 03:04:05"],
+    "datetime": {"good": [{"datetime": "2020-01-02T03:04:05"}, {"datetime": "2020-01-02T03:04:05+02:00"},
+                          {"datetime": "2020-01-02T03:04:05.5-01:00"}], "text": ["2020-01-02 03:04:05"],
                  "near": ["2020-01-02", "2020-01-02T03:04:05",
                           {"datetime": "2020-01-02T03:04:05.123456"}, {"date": "2020-01-02"}]},
     "2-tuple": {"good": [{"list": ["1", "2"]}], "text": ["(1;2)", "(a; b)"],
@@ -122,7 +123,11 @@ class Gen(object):
 
     def name(self):
         if self.chance(self.p.rare_name_share):
-            return self.pick(RARE_NAMES)
+            if self.chance(0.4) and self.U.objs:
+                # a name that is the id of an existing object: the "cleared name falls back to
+                # the id" rule can then run into a sibling that already carries that name
+                return self.pick(self.U.objs).id
+            return self.pick(RARE_NAMES + [GOOD_OID])
         return self.pick(self.p.names)
 
     def secs(self):
@@ -496,6 +501,13 @@ class Gen(object):
         if x is None:
             return None
         r = self.rng.random()
+        if self.fault() and r < 0.5:
+            # state-directed: an object one of whose siblings is named like the object's id
+            hit = [o for o in self.nodes() if o.parent is not None and o.name != o.id and any(
+                s is not o and s.name == o.id
+                for s in (o.parent.sections if kind_of(o) == "sec" else o.parent.properties))]
+            if hit:
+                return {"op": "rename", "x": self.ref(self.pick(hit)), "name": self.pick([None, ""])}
         if r < 0.12:
             nm = self.pick([None, ""])
         elif r < 0.2:
